@@ -1,18 +1,18 @@
 SPECIFICATION MCSpec
 CONSTANTS
-  Nodes = {"a"}
+  Nodes = {"a", "b"}
   Kinds = {"E"}
-  MaxOps = 3
+  MaxOps = 2
   MaxSys = 0
-  MaxFail = 1
-  MaxRecFail = 1
-  MaxBlock = 1
-  MaxTake = 0
-  MaxCrash = 1
-  MaxZombie = 0
+  MaxFail = 0
+  MaxRecFail = 0
+  MaxBlock = 0
+  MaxTake = 2
+  MaxCrash = 0
+  MaxZombie = 1
   MaxSnap = 0
   Keeps = {0}
-  Eager = TRUE
+  Eager = FALSE
 INVARIANTS TypeOK C18_IdContent C18_NoSkip C18_FirstOrder C18_LPSound I_DispAboveLP NoPanic
 PROPERTIES StepsOK
 VIEW MCView
